@@ -325,7 +325,8 @@ def _tlm_chunk(cfgs) -> dict:
 # whole circuits: Circuit.to_sympy(substitute=True) vs get_impedances
 
 CIRCUIT_PALETTE = [
-    G.entry("R", {"R": 120.0}, name="R"), G.entry("C", {"C": 3e-5}, name="C"), G.entry("Q", {"Y": 4e-4, "n": 0.7}, name="Q"),
+    G.entry("R", {"R": 120.0}, name="R"), G.entry("R", {"R": 75.0}, label="ct", name="R:ct"), G.entry("C", {"C": 3e-5}, name="C"),
+    G.entry("C", {"C": 8e-6}, label="dl", name="C:dl"), G.entry("Q", {"Y": 4e-4, "n": 0.7}, name="Q"),
     G.entry("L", {"L": 2e-3}, name="L"), G.entry("W", {"Y": 5e-3}, name="W"), G.entry("Tlm", {}, name="Tlm"),
     G.entry("Zarc", {"R": 50.0, "tau": 1e-2, "n": 0.85}, name="Zarc"), G.entry("Ls", {"R_i": 4.0, "R_r": 2.5, "Y": 0.02, "n": 0.9, "d": 0.3}, name="Ls"),
 ]
@@ -478,7 +479,8 @@ from vf import circuit_history as H
 
 LIMHIST_SUBJECTS = {
     "R(RC)(RL)": {"route": "cdc", "tree": ("S", ("L",), ("P", ("L",), ("L",)), ("P", ("L",), ("L",))),
-                  "fills": [G.entry("R", {"R": 100.0}), G.entry("R", {"R": 200.0}), G.entry("C", {"C": 1e-6}), G.entry("R", {"R": 50.0}), G.entry("L", {"L": 1e-3})],
+                  "fills": [G.entry("R", {"R": 100.0}), G.entry("R", {"R": 200.0}, label="ct"), G.entry("C", {"C": 1e-6}, label="dl"), G.entry("R", {"R": 50.0}),
+                            G.entry("L", {"L": 1e-3})],
                   "muts": [{"leaf": 1, "kind": "values", "alt": {"R": 50.0}}, {"leaf": 3, "kind": "values", "alt": {"R": 75.0}},
                            {"leaf": 2, "kind": "values", "alt": {"C": 1e-5}}]},
     "R(RQ)": {"route": "objects", "tree": ("S", ("L",), ("P", ("L",), ("L",))),
@@ -509,6 +511,45 @@ def _limhist_observations(st, reference: bool):
                 return ("error", type(ex).__name__)
         return f
     return {k: mk(v) for k, v in LIMHIST_OBS.items()}
+
+
+LIMIT_VECTORS = [list(p) for p in itertools.permutations([0.0, 1.0, math.inf])] + [[0.0, 0.0, 1.0, math.inf], [math.inf, math.inf, 1.0, 0.0],
+                                                                                 [math.inf, 0.0], [0.0, math.inf, 0.0]]
+
+
+def _limvec_violations(name: str, on, st) -> List[dict]:
+    """Frequency vectors that mix 0 Hz, infinite and finite frequencies in every order (and with repeats), on a freshly built circuit."""
+    np = st["np"]
+    subj = LIMHIST_SUBJECTS[name]
+    fills = H.spec_state(subj["fills"], subj["muts"], on)
+    out = []
+    for vec in LIMIT_VECTORS:
+        c = H.ROUTES[subj["route"]](subj["tree"], fills)
+        near = [1e-30 if x == 0 else 1e30 if math.isinf(x) else x for x in vec]
+        try:
+            exp = [complex(z) for z in c.get_impedances(np.array(near))]
+            got = [complex(z) for z in c.get_impedances(np.array(vec))]
+            bad = len(got) != len(exp) or any(abs(a - b) > 1e-6 * abs(b) + 1e-7 for a, b in zip(got, exp))
+            what = f"reported {got}, the finite-frequency values converge to {exp}"
+        except Exception as ex:
+            bad, what = True, f"raised {type(ex).__name__}: {str(ex)[:80]}"
+        if bad:
+            order = ",".join("0" if x == 0 else "inf" if math.isinf(x) else "f" for x in vec)
+            out.append({"key": f"limit-vector|{order}", "what": f"circuit {name}: get_impedances([{order}]) {what}",
+                        "case": {"part": "limit-vector", "subject": name, "on": list(on)}, "detail": ""})
+    return out
+
+
+def _limvec_chunk(arg) -> dict:
+    name, on = arg
+    st = setup()
+    v = _limvec_violations(name, on, st)
+    seen: Dict[str, dict] = {}
+    for x in v:
+        x["count"] = 1
+        seen.setdefault(x["key"], x)
+    return {"n": len(LIMIT_VECTORS), "nontrivial": [hash(("limvec", name, tuple(on), i)) for i in range(len(LIMIT_VECTORS))],
+            "outcomes": {"limit-vector:" + ("WRONG" if v else "continuous"): len(LIMIT_VECTORS)}, "violations": list(seen.values())}
 
 
 def _limhist_run(name: str, ops, st, cache={}):
@@ -597,9 +638,9 @@ def run(ctx) -> None:
                 "for K/Ky, negative values; exponents {0.25,0.5,0.8,1} quick / 6 values thorough) x 16 (46) log-spaced frequencies in "
                 "1e-6..1e9 Hz, numeric vs documented equation with 50-digit adjudication and a conditioning filter; every k-th grid "
                 "point also through to_sympy(substitute=True); all 36 open/short/finite configurations of the general transmission line x "
-                "sub-circuit contents x L, numeric vs symbolic; every skeleton <= 3 leaves over an 8-entry palette, Circuit.to_sympy "
+                "sub-circuit contents x L, numeric vs symbolic; every skeleton <= 3 leaves over a 10-entry palette (two entries labelled), Circuit.to_sympy "
                 "(substitute=True) vs numeric; reported limits at 0 and inf vs converged finite-frequency values (single elements: value sequences; "
-                "whole circuits: every sequence of 4 (5) operations from {evaluate at 0, at inf, at [0,1,inf]; set_values on one of three nested "
+                "whole circuits (some elements labelled): frequency vectors mixing 0, inf and finite frequencies in all 6 orders and with repeats; every sequence of 4 (5) operations from {evaluate at 0, at inf, at [0,1,inf]; set_values on one of three nested "
                 "elements} vs the converged finite-frequency values of a circuit built with the current parameters). Non-trivial = parameter "
                 "vector differs from the class defaults / a Tlm configuration / a composite circuit.")
     ctx.exhaustive = True
@@ -648,6 +689,8 @@ def run(ctx) -> None:
     for name, subj in LIMHIST_SUBJECTS.items():
         alpha = [["obs", k] for k in LIMHIST_OBS] + [["tog", k] for k in range(len(subj["muts"]))]
         hjobs += [(name, [a, b], depth) for a in alpha for b in alpha]
+    ctx.pmap(_limvec_chunk, [(name, on) for name, subj in LIMHIST_SUBJECTS.items() for on in itertools.product((False, True), repeat=len(subj["muts"]))],
+             label="frequency vectors mixing 0, inf and finite frequencies in every order")
     ctx.pmap(_limhist_chunk, hjobs, label=f"circuit limits over operation sequences of length {depth} (evaluate at 0/inf, set_values on a nested element)")
 
 
@@ -673,6 +716,11 @@ def replay(case: dict) -> list:
         return check_tlm(case["cfg"], st)[0]
     if part == "circuit":
         return check_circuit(tup(case["tree"]), case["fill"], st)
+    if part == "limit-vector":
+        seen = {}
+        for x in _limvec_violations(case["subject"], [bool(b) for b in case["on"]], st):
+            seen.setdefault(x["key"], x)
+        return list(seen.values())
     if part == "limit-history":
         v = _limhist_violation(case["subject"], [list(o) for o in case["ops"]], st)
         return [v] if v else []
